@@ -936,9 +936,34 @@ def edpe_blocks(f, dkey, v, extra_decide=None, start=None, blocked=()):
     nodes = f.nodes
     # locals that merely hold the dispatch value (`unsigned short type = t->type;`) dispatch like it
     aliases = {dkey}
-    for nm, init in single_assignment_locals(f).items():
+    sal = single_assignment_locals(f)
+    for nm, init in sal.items():
         if key(init) == dkey:
             aliases.add(nm)
+    # boolean locals computed once from the dispatch value (`bool is_ascii = (code == (code & 127));`) decide like their
+    # initialiser
+    bool_alias = {}
+    for nm, init in sal.items():
+        si = strip(init)
+        if si is not None and si["k"] == "BinaryOperator" and si["op"] in ("==", "!=", "<", ">", "<=", ">=", "&&", "||") and \
+                any(key(x) in aliases for x in walk(si)):
+            bool_alias[nm] = si
+    if bool_alias:
+        user_extra = extra_decide
+
+        def extra_decide(tested, _u=user_extra):      # noqa: F811
+            t = strip(tested)
+            if t is not None and t["k"] == "DeclRefExpr" and t["n"] in bool_alias:
+                d = _cmp_decide(bool_alias[t["n"]], aliases, v)
+                if d is not None:
+                    return d
+            if t is not None and t["k"] == "UnaryOperator" and t["op"] == "!":
+                i = strip(t["c"][0])
+                if i is not None and i["k"] == "DeclRefExpr" and i["n"] in bool_alias:
+                    d = _cmp_decide(bool_alias[i["n"]], aliases, v)
+                    if d is not None:
+                        return not d
+            return _u(tested) if _u is not None else None
     seen = set()
     st = [cfg.entry if start is None else start]
     while st:
